@@ -27,6 +27,7 @@ from .types import (
 
 MAX_DEPTH = 12
 TRANSPARENT_CLASSES = {"dvc_data.hashfile._progress:QueryingProgress"}
+CALLBACK_CLASSES = {"dvc_data.hashfile.hash:LargeFileHashingCallback", "dvc_data.callbacks:TqdmCallback"}
 
 
 class CtxMgrNone:
@@ -133,6 +134,8 @@ class CallMixin:
                 self.assume(ty.is_some(obj))
                 return self.get_attr(ty.val(obj), name, node, obj_expr)
             if isinstance(ty, TRec):
+                if getattr(ty, "dictlike", False):
+                    return BuiltinMethod(obj, name, obj_expr)
                 if name in ty.fields:
                     return ty.get(obj, name)
                 return self.class_attr(ty, obj, name, node, obj_expr)
@@ -192,6 +195,9 @@ class CallMixin:
         if isinstance(cdef, ClassDef):
             if isinstance(ty, TRef):
                 cdef = self.dynamic_class(obj, cdef, name)
+            c = self.repo.find_class_const(cdef, name)
+            if c is not None:
+                return self.wrap_def(c)
             m = self.repo.find_method(cdef, name)
             if isinstance(m, FuncDef):
                 if m.is_property:
@@ -220,7 +226,13 @@ class CallMixin:
         if not cands:
             return cdef
         alts = [self.dyn_class_is(obj, t.cls).t for t, _ in cands]
-        alts.append(z3.Not(z3.Or(*alts)))
+        base_m = self.repo.find_method(cdef, name)
+        if isinstance(base_m, FuncDef) and any("abstractmethod" in d for d in base_m.decorators):
+            # abstract in the declared class: the object is an instance of one of the concrete subclasses
+            self.res.assumed_used.add(f"instances of abstract {cdef.name} are of a declared concrete subclass")
+            self.st.pc.append(z3.Or(*alts))
+        else:
+            alts.append(z3.Not(z3.Or(*alts)))
         i = self.decide(alts)
         return cands[i][1] if i < len(cands) else cdef
 
@@ -465,6 +477,12 @@ class CallMixin:
         if cdef.qualname in TRANSPARENT_CLASSES:
             self.res.drops.add(f"{cdef.name}(it, ...) treated as the identity on the wrapped iterable (progress plumbing)")
             return args[0] if args else CtxMgrNone()
+        if cdef.qualname in CALLBACK_CLASSES:
+            from .builtins_ import CtxMgr
+
+            self.res.drops.add(f"{cdef.name}(...) treated as an opaque progress callback (no effect on verified state)")
+            cb = TRef.registry.get("Callback")
+            return CtxMgr(value=cb.fresh("cb") if cb else None)
         if ty is None:
             if any("Exception" in b or "Error" in b for b in cdef.bases):
                 raise Unsupported("exception object used as a value")
@@ -598,6 +616,8 @@ class CallMixin:
             if isinstance(t, TSet):
                 return t.empty()
             raise Unsupported(f"set() where {t} expected")
+        if isinstance(v, (tuple, list)) and isinstance(t, TTuple) and len(v) == len(t.elems):
+            return t.mk(*[self.coerce(x, e) for x, e in zip(v, t.elems)])
         if isinstance(v, (tuple, list)) and isinstance(t, TSet):
             s = t.empty()
             for x in v:
@@ -616,6 +636,12 @@ class CallMixin:
                 self.st.pc.append(specfn.list_elems(new).t == z3.SetAdd(specfn.list_elems(acc).t, xe.t))
                 acc = new
             return acc
+        if isinstance(v, SV) and isinstance(t, TTuple) and isinstance(v.ty, TOpt) and isinstance(v.ty.elem, TTuple):
+            self.oblige("attr", v.ty.is_some(v), self.cur_node, "None where a tuple is required")
+            self.assume(v.ty.is_some(v))
+            v = v.ty.val(v)
+        if isinstance(v, SV) and isinstance(t, TTuple) and isinstance(v.ty, TTuple) and v.ty != t and len(v.ty.elems) == len(t.elems):
+            return t.mk(*[self.coerce(v.ty.get(v, i), e) for i, e in enumerate(t.elems)])
         if isinstance(v, SV):
             if isinstance(v.ty, TOpt) and not isinstance(t, TOpt) and v.ty.elem == t:
                 self.oblige("attr", v.ty.is_some(v), self.cur_node, "None where a value is required")
